@@ -4,7 +4,7 @@
 //! writer operations with the recording writer and writes inputs + outputs as Coq terms for
 //! coq/C10/Corr.v.
 use nitrogql_ast::TypeSystemDocument;
-use nitrogql_config_file::{ScalarTypeConfig, SendReceiveScalarTypeConfig, SeparateScalarTypeConfig};
+use nitrogql_config_file::{parse_config, ScalarTypeConfig, SendReceiveScalarTypeConfig, SeparateScalarTypeConfig};
 use nitrogql_plugin::{ModelPlugin, Plugin};
 use nitrogql_printer::verif_hooks::print_description;
 use nitrogql_printer::{ResolverTypePrinter, ResolverTypePrinterOptions, SchemaTypePrinter, SchemaTypePrinterOptions};
@@ -211,7 +211,18 @@ fn cfg_texts(c: &ScalarTypeConfig) -> Vec<&str> { c.type_names().collect() }
 
 struct SOpts { scalars: Vec<(String, ScalarTypeConfig)>, meta: String, optional: bool, runtime: bool }
 impl SOpts {
+    /// Where the options can be expressed by a configuration (default metadata type name, all five built-in
+    /// scalars mapped) they are built the way the CLI builds them: configuration TEXT -> parse_config ->
+    /// SchemaTypePrinterOptions::from_config, so that the option plumbing is inside the tie; the text lists
+    /// every entry, in particular the remapped built-ins. Otherwise (malformed stream) the fields are set directly.
     fn to_rust(&self) -> SchemaTypePrinterOptions {
+        let all_builtins = BUILTIN_SCALARS.iter().all(|b| self.scalars.iter().any(|(k, _)| k == b));
+        if self.meta == "__nitrogql_schema" && all_builtins {
+            let m: serde_json::Map<String, J> = self.scalars.iter().map(|(k, c)| (k.clone(), cfg_json(c))).collect();
+            let yaml = format!("schema: schema.graphql\nextensions:\n  nitrogql:\n    generate:\n      emitSchemaRuntime: {}\n      type:\n        allowUndefinedAsOptionalInput: {}\n        scalarTypes: {}\n",
+                self.runtime, self.optional, serde_json::to_string(&m).unwrap());
+            if let Some(config) = parse_config(&yaml) { return SchemaTypePrinterOptions::from_config(&config); }
+        }
         SchemaTypePrinterOptions {
             scalar_types: self.scalars.iter().cloned().collect::<HashMap<_, _>>(),
             schema_metadata_type: self.meta.clone(),
